@@ -197,7 +197,9 @@ class UnitValueValidator:
             char_errors[class_name] = self._get_problem_indices(stripped_value, class_name, start_index=start_index)
             if class_valid[class_name] and not char_errors[class_name]:  # We have found a valid class
                 return []
-        index_adj = len(report_as.org_base_tag) - len(original_tag.org_base_tag)
+        # index_offset: where the validated text starts inside the extension of the tag the error is reported as
+        # (for Def/Name/value the value starts after 'Name/')
+        index_adj = len(report_as.org_base_tag) - len(original_tag.org_base_tag) + index_offset
         validation_issues = self.report_value_errors(char_errors, class_valid, report_as, index_adj)
         return validation_issues
 
